@@ -12,3 +12,6 @@ pub mod shrink;
 
 pub mod c01;
 pub mod c02;
+pub mod c05;
+pub mod cgram;
+pub mod c06;
